@@ -44,6 +44,10 @@ def run_pass(ctx, rep, spec, enc, kinds, limit=None, want_enum=True):
         return None
     model = P.model
     n_model = P.n_designs_discrete()
+    # the choices of a constraint are not always active together (they sit on different hierarchy levels)
+    if spec.get('cons'):
+        cs = spec['cons'][0]['cs']
+        cls['cons_mixed'] = any(len({r[c] is None for c in cs}) > 1 for r in model)
     # some declared option occurs in no architecture of the model (e.g. it necessarily leads to an incompatibility)
     cls['dead_option'] = any(all(r[ci] != k for r in model) for ci, c_ in enumerate(spec['sel']) for k in range(len(c_['opts'])))
     if not P.dsg.feasible:
